@@ -51,6 +51,7 @@ def _ev(project):
     ev.static_len = _reducer_slots
     ev.unroll = True
     ev.self_class = PYR + ".Pyramid"      # private helpers of the walk (e.g. a preparation pass moved into a method) are part of it
+    ev.inline_resolved = True             # ... and so are the methods of a small bookkeeping object the walk creates for itself
     ev.no_inline |= {"_make_iter_reducer", "count_operations", "count_leaf_tiles", "count_live_tiles", "_walk_serial", "_walk_parallel",
                      "_visit_leaves_serial", "_visit_leaves_parallel", "_generator", "walk", "visit_leaves", "subpyramid", "_make_position_filter",
                      "generate_pos", "_postfix_pos", "is_subtile", "tiles_at_depth", "depth2tiles", "next_highest_power_of_2"}
@@ -276,7 +277,7 @@ def _dispatcher(run, ev):
     f = project.fn(PYR + ".Pyramid._walk_parallel")
     run.note_func(f)
     r = ev.run(f.node)
-    stages = [s for s in common.discover_stages(project) if s.func is f]
+    stages = [s for s in common.discover_stages(project) if s.func.qual == f.qual]
     if not stages:
         run.undecided("C01.R2", f, None, "_walk_parallel is not a parallel stage any more", kind="no-stage")
         return
@@ -289,6 +290,13 @@ def _dispatcher(run, ev):
                   and e.term[1][1][0] == "new"]
     if not put_events or not get_events:
         run.undecided("C01.R2", f, None, "no ready-queue put / done-queue get found in the dispatcher", kind="no-protocol")
+        return
+    own_ids = {id(n_) for n_ in own_nodes(f.node)}
+    if id(get_events[0].node) not in own_ids:
+        # the wait for a finished tile sits in a helper with a loop of its own: the dispatcher's loop structure as the evaluator sees it
+        # (loops of inlined helpers included) is not the statement structure the release / termination rules speak about
+        run.undecided("C01.R2", f, None, "the dispatcher receives completions through a helper (%s): release and termination cannot be related to one "
+                      "dispatch loop" % ast.unparse(get_events[0].node)[:60], kind="dispatch-receive-delegated")
         return
     done_q = get_events[0].term[1][1][1]
     got = get_events[0].term            # the received position, as a term
@@ -460,7 +468,7 @@ def _dispatcher(run, ev):
         # pre-readied bits: for every liveness pattern of the four children, the flags stored for a non-leaf tile
         # (0 when nothing is stored) are exactly the bits of the dead children
         st_all = [x for x in r.events if x.kind == "store" and ("loop", k) in x.pc and x.term[1][0][0] == "sub"
-                  and "readiness" in show(x.term[1][0][1])]
+                  and "readiness" in show(x.term[1][0][1]).lower()]
         st_pre = [x for x in st_all if _key_kind(x.term[1][0][2], pos_t) in ("identity", "fields")]
         if st_all and not st_pre:
             run.undecided("C01.R3", f, st_all[0].node, "pre-readied flags are stored under the derived key %s instead of the position itself; "
@@ -531,6 +539,11 @@ def _dispatcher(run, ev):
             bad = True
     # the Empty handler must lead back to the loop, not out of it
     gnode = cfg.node_containing(get_events[0].node)
+    if gnode is None:
+        # the receive sits in a helper that was inlined by the evaluator: the statement-level view of the dispatcher does not show it
+        run.undecided("C01.R4", f, None, "the dispatcher receives completions through a helper (%s): the loop around it is not visible at statement level" %
+                      ast.unparse(get_events[0].node)[:60], kind="dispatch-receive-delegated")
+        return
     loop_stmt = [s for s, b in enclosing_stmts(f.node, gnode.ast) if isinstance(s, ast.While)]
     if loop_stmt:
         w = loop_stmt[-1]
